@@ -194,6 +194,10 @@ def _add_size_bound_virtuals(structure, type_definition):
             name=ir_data.NameDefinition(name=ir_data.Word(text=name)),
             existence_condition=expression_parser.parse("true"),
             attribute=[_skip_text_output_attribute()],
+            # The field belongs to the structure as a whole: a message about the
+            # field itself (as opposed to its synthetic contents) -- for example, a
+            # dependency cycle through it -- is reported at the structure.
+            source_location=type_definition.source_location,
         )
         _mark_as_synthetic(bound_field.read_transform)
         structure.field.extend([bound_field])
@@ -241,6 +245,10 @@ def _add_size_virtuals(structure, type_definition):
             boolean_constant=ir_data.BooleanConstant(value=True)
         ),
         attribute=[_skip_text_output_attribute()],
+        # The field belongs to the structure as a whole: a message about the field
+        # itself (as opposed to its synthetic contents) -- for example, a
+        # dependency cycle through it -- is reported at the structure.
+        source_location=type_definition.source_location,
     )
     structure.field.extend([size_field])
 
